@@ -179,7 +179,8 @@ async fn fault_enum() {
 // exactly the acknowledged commits.  (Found F30: an oversized batch reached the WAL, poisoned the fresh memtable and
 // made the store unopenable.)
 // Bound (stated): memtable size 64 KiB; one transaction of 1 or 3 values of total size
-// {1/2, 0.9, 1, 1.1, 2, 8} x memtable size, or of 200 / 1300 one-byte values (few bytes, many skiplist nodes),
+// {1/2, 0.9, 1, 1.1, 2, 8} x memtable size, or of 200 / 1100 / 1150 / 1300 one-byte values (few bytes, many skiplist nodes; 1100 and 1150 need more than the memtable by
+// a small margin only: a bound that charges less than a full-height node per entry lets it through),
 // placed first / in the middle of 4 small commits; flush_on_close on / off.
 #[tokio::test(flavor = "multi_thread", worker_threads = 2)]
 async fn oversize_enum() {
@@ -190,7 +191,7 @@ async fn oversize_enum() {
 	let mut failures: Vec<String> = Vec::new();
 	let mut samples: Vec<String> = Vec::new();
 	for &tenths in &[5usize, 9, 10, 11, 20, 80] {
-		for &nvals in &[1usize, 3, 200, 1300] {
+		for &nvals in &[1usize, 3, 200, 1100, 1150, 1300] {
 			if nvals >= 100 && tenths != 5 {
 				continue; // the many-tiny-writes shapes do not depend on the byte total
 			}
